@@ -255,6 +255,9 @@ def _diff(ref, cur):
             or type(a[k]) is not type(b[k]) and isinstance(a[k], str) != isinstance(b[k], str)}
 
 
+RES = pinned.load_resolutions()
+
+
 def judge_map(case, out):
     identity, shape = case["id"], case["shape"]
     lay0 = pinned_layout(identity, shape, "zeros")
@@ -358,6 +361,15 @@ def judge_map(case, out):
                     f"{identity}: field {o.key} ({o.width} bits) decodes all-ones as {vals[0]!r} and "
                     f"sign-bit-only as {vals[1]!r}: class {got}, standard class {want}")
             return
+        # scale (resolution) of the field, from the same two extremes, against the pinned row
+        if o.typ not in ("CHA", "STR") and o.key in RES:
+            for raw, v in zip((top, msb), vals):
+                ref_v = R.decode(o.typ, o.width, RES[o.key], raw)
+                if not R.values_equal(v, ref_v):
+                    out.bad("decoding-scale-differs",
+                            f"{identity}: field {o.key} ({o.width} bits, {o.typ}) decodes raw {raw:#x} as "
+                            f"{v!r}; with the pinned resolution {RES[o.key]!r} it is {ref_v!r}")
+                    return
     out.transitions = 0
     out.obs = core.h64(repr((identity, sorted(shape.items()), "map")))
 
@@ -525,6 +537,7 @@ def judge_sibling(case, out):
     out.obs = core.h64(repr(sorted(case.items(), key=str)))
 
 
+@core.guard
 def judge(case):
     out = core.Outcome()
     {"static": judge_static, "length": judge_length, "map": judge_map,
